@@ -246,7 +246,7 @@ func TestVerif_C45(t *testing.T) {
 	vx.Run(t, "C45", func(c *vx.Ctx) {
 		kLex := vx.Pick(c, 4, 5)
 		kBeh := vx.Pick(c, 3, 4)
-		c.Rule(fmt.Sprintf("names = every distinct join of <= %d (lexical) / <= %d (behavioural) fragments of %q. lexical: Dir(root).resolve(name) for roots /abs/r, r, \"\", ., /, r/, r/../r — \"\" iff the name holds NUL, else the result is filepath.Clean and filepath.Rel(Clean(root), result) has no leading \"..\" element. behavioural (part fs): on a fresh real tree base/x1/../x%d/r with a sentinel file a and directory b at every level outside r, where r is (root kind) a directory, or a symbolic link to the directory base/real/t with the same sentinels in base/real; the served directory holds a/b, b, e/; the root path is spelled plain and with a trailing slash (linked root: plain), and for names of fewer fragments than the bound also as r/../r and with // and /./ inside (both root kinds); the calls Rename(/b,name), Rename(name,/b), Mkdir, OpenFile(O_CREATE)+Write, RemoveAll are made in this order; after each the snapshot (paths, kinds, file sizes, link targets — all files have distinct sizes and sentinels are empty) of everything outside the served directory (the link r included) must be unchanged and r must still be the directory / the same link to a directory; for names that the reference normalisation maps to the root, RemoveAll and Rename must fail and leave the inside unchanged; for names with NUL every call must fail and change nothing. operations on the root itself (part root-ops): for every behavioural name that the reference normalisation maps to the root x both root kinds x the same root path spellings, on one fresh tree: Rename(p, name) and Rename(name, p) for p in /b (file), /a/b (nested file), /a (non-empty directory), /e (empty directory), /c (missing), then Rename(name, /), Rename(/, name), Rename(name, name), RemoveAll(name); each must return an error and leave the root (directory or link), everything outside and everything inside unchanged. non-trivial = name without NUL whose result was compared / whose calls were executed", kLex, kBeh, c45Frags, kBeh+2))
+		c.Rule(fmt.Sprintf("names = every distinct join of <= %d (lexical) / <= %d (behavioural) fragments of %q. lexical: Dir(root).resolve(name) for roots /abs/r, r, \"\", ., /, r/, r/../r — \"\" iff the name holds NUL, else the result is filepath.Clean and filepath.Rel(Clean(root), result) has no leading \"..\" element. behavioural (part fs): on a fresh real tree base/x1/../x%d/r with a sentinel file a and directory b at every level outside r, where r is (root kind) a directory, or a symbolic link to the directory base/real/t with the same sentinels in base/real; the served directory holds a/b, b, e/; the root path is spelled plain and with a trailing slash (linked root: plain, and in the quick tier not with the names of exactly the bound's fragment count), and for names of fewer fragments than the bound also as r/../r and with // and /./ inside (both root kinds); the calls Rename(/b,name), Rename(name,/b), Mkdir, OpenFile(O_CREATE)+Write, RemoveAll are made in this order; after each the snapshot (paths, kinds, file sizes, link targets — all files have distinct sizes and sentinels are empty) of everything outside the served directory (the link r included) must be unchanged and r must still be the directory / the same link to a directory; for names that the reference normalisation maps to the root, RemoveAll and Rename must fail and leave the inside unchanged; for names with NUL every call must fail and change nothing. operations on the root itself (part root-ops): for every behavioural name that the reference normalisation maps to the root x both root kinds x the same root path spellings, on one fresh tree: Rename(p, name) and Rename(name, p) for p in /b (file), /a/b (nested file), /a (non-empty directory), /e (empty directory), /c (missing), then Rename(name, /), Rename(/, name), Rename(name, name), RemoveAll(name); each must return an error and leave the root (directory or link), everything outside and everything inside unchanged. non-trivial = name without NUL whose result was compared / whose calls were executed", kLex, kBeh, c45Frags, kBeh+2))
 		c.Assume("Linux: '/' is the only separator, so backslash spellings are ordinary file-name characters; symbolic links inside the served tree are out of scope (documented limitation of Dir); the Dir's own root being a symbolic link to a directory is in scope (absolute link target only)")
 		c.Assume("the roots \"/\", \"\", \".\" and relative roots are examined lexically only (resolve); the file-system calls are made only below a fresh temporary directory")
 		c.Assume("refusal is judged as the property states it: the call fails and nothing changed; which error is returned is not judged. With a plain-directory root the operating system refuses to rename a directory onto its own ancestor or descendant anyway, so there only the error shows; with a linked root the rename/removal of the link itself would succeed and is seen as root-gone")
@@ -397,12 +397,13 @@ func TestVerif_C45(t *testing.T) {
 		})
 
 		// ---- every name, every method
+		longStyles := [2]int{2, vx.Pick(c, 0, 1)} // root spellings used with the longest names, per root kind
 		vx.Enumerate(c, "fs", vx.Opts{}, func(yield func(c45Beh) bool) {
 			for i, n := range behNames {
 				for k := range c45Kinds {
 					for s := range c45Styles {
-						if i >= allStyles && s >= 2-k {
-							break // the longest names only with the first two root spellings (linked root: the first)
+						if i >= allStyles && s >= longStyles[k] {
+							break // the longest names only with the first two root spellings (linked root: the first; quick: none, part root-ops has their root spellings)
 						}
 						if !yield(c45Beh{Style: s, Name: n, Kind: k}) {
 							return
